@@ -268,6 +268,10 @@ func expectTokenSlash(s string) (token, rest string) {
 	return s[:i], s[i:]
 }
 
+// maxQualityDenominator bounds the number of fractional digits of a q-value that are taken into account
+// (RFC 7231 allows 3), so that the integer accumulators of expectQuality cannot overflow.
+const maxQualityDenominator = 1000000000
+
 func expectQuality(s string) (q float64, rest string) {
 	switch {
 	case len(s) == 0:
@@ -294,6 +298,10 @@ func expectQuality(s string) (q float64, rest string) {
 		b := s[i]
 		if b < '0' || b > '9' {
 			break
+		}
+		if d >= maxQualityDenominator {
+			// further digits are below any meaningful precision: skip them rather than overflow n and d
+			continue
 		}
 		n = n*10 + int(b) - '0'
 		d *= 10
